@@ -68,7 +68,7 @@ def IsValidDataType(str_val, data_type, charset='B', icvn='00401'):
     return True
 
 rec_N = re.compile("^-?[0-9]+", REGEX_MODE)
-rec_R = re.compile("^-?[0-9]*(\.[0-9]+)?", REGEX_MODE)
+rec_R = re.compile("^-?(?:[0-9]+(?:\.[0-9]+)?|\.[0-9]+)", REGEX_MODE)
 rec_ID_E = re.compile(
     "[^A-Z0-9!\"&'()*+,\-\./:;?= a-z%~@\[\]_{}\\\|<>#$]", REGEX_MODE)
 rec_ID_E5 = re.compile(
